@@ -30,22 +30,26 @@ import c17_lib as L
 
 PROP = 'C17'
 INF = 999
-BASE_CONST = {'PullMutant': '"none"', 'BuildMutant': '"none"', 'SentinelCarried': 'TRUE'}
+BASE_CONST = {'PullMutant': '"none"', 'BuildMutant': '"none"'}
 
 TIERS = {
     'quick': dict(
         cases=dict(MaxStages=3, Horizon=16, KMax=6, Wide='FALSE', MaxDerive=1),
         laws=dict(MaxStages=2, Horizon=16, KMax=6, Wide='FALSE', MaxDerive=1),
         pull=dict(MaxStages=2, Horizon=16, KMax=6, Wide='FALSE', MaxDerive=1),
+        pulldump=dict(MaxStages=1, Horizon=16, KMax=6, Wide='TRUE', MaxDerive=1),
         build=dict(MaxStages=1, Horizon=16, KMax=6, Wide='FALSE', MaxDerive=3),
-        rows=2400, chunk=300),
+        rows=1600, chunk=200),
     'thorough': dict(
         cases=dict(MaxStages=4, Horizon=20, KMax=6, Wide='FALSE', MaxDerive=1),
         cases2=dict(MaxStages=2, Horizon=24, KMax=6, Wide='TRUE', MaxDerive=1),
         laws=dict(MaxStages=3, Horizon=16, KMax=6, Wide='FALSE', MaxDerive=1),
-        pull=dict(MaxStages=2, Horizon=20, KMax=6, Wide='TRUE', MaxDerive=1),
+        pull=dict(MaxStages=2, Horizon=24, KMax=6, Wide='FALSE', MaxDerive=1),
+        pull2=dict(MaxStages=1, Horizon=24, KMax=6, Wide='TRUE', MaxDerive=1),
+        pull3=dict(MaxStages=3, Horizon=16, KMax=6, Wide='FALSE', MaxDerive=1),     # safety laws only
+        pulldump=dict(MaxStages=2, Horizon=16, KMax=6, Wide='FALSE', MaxDerive=1),
         build=dict(MaxStages=1, Horizon=16, KMax=6, Wide='FALSE', MaxDerive=4),
-        rows=30000, chunk=1500),
+        rows=20000, chunk=1250),
 }
 
 
@@ -58,15 +62,16 @@ def consts(d, **over):
 
 # ---- TLC with -dump, processed in parallel -----------------------------------------------------
 class Dump:
-    def __init__(self, cfg, constants, workers, label):
+    def __init__(self, cfg, constants, workers, label, coverage=False):
         self.cfg, self.constants, self.workers, self.label = cfg, constants, workers, label
+        self.coverage = coverage
         self.scratch = tempfile.mkdtemp(prefix='glomverif_c17_')
         self.path = os.path.join(self.scratch, 'states')
         self.res = None
 
     def run(self):
         self.res = vlib.run_tlc('MC_C17', cfg=self.cfg, constants=self.constants, workers=self.workers,
-                                extra=('-dump', self.path), heap='6g', timeout=3000)
+                                extra=('-dump', self.path), heap='6g', timeout=3000, coverage=self.coverage)
         return self
 
     def close(self):
@@ -139,29 +144,12 @@ def judge_one(pred, obs, kmax):
     return '', '', drift
 
 
-def explained_by_forgotten_sentinel(pred, obs, kmax):
-    """the observation is exactly what the pipeline with the base sentinel forgotten would do
-    (narrow classification of the known finding; pred['alt'] is computed by the specification)"""
-    alt = pred['alt']
-    if not alt['on']:
-        return False
-    p = alt['p']
-    if p['bad']:
-        return obs['exc'] == 'TypeError'
-    if p['demLA'][0] == INF:          # nothing about the forgotten-sentinel pipeline is determined inside the horizon
-        return not obs['exc']
-    return judge_one(p, obs, kmax)[0] == ''
-
-
 def judge_iter(pred, obs, kmax):
-    clause, detail, drift = judge_one(pred, obs, kmax)
-    if clause and explained_by_forgotten_sentinel(pred, obs, kmax):
-        return 'outputs:sentinel-dropped', 'behaves like the pipeline with the base sentinel forgotten (%s: %s)' % (clause, detail), ''
-    return clause, detail, drift
+    return judge_one(pred, obs, kmax)
 
 
 def small_pred(pred):
-    return {k: pred[k] for k in ('n', 'ended', 'xs', 'dem', 'demLA', 'first', 'all', 'alt')}
+    return {k: pred[k] for k in ('n', 'ended', 'xs', 'dem', 'demLA', 'first', 'all')}
 
 
 def check_def_case(st, out):
@@ -177,6 +165,8 @@ def check_def_case(st, out):
     nontrivial = len(pipe) >= 2
     if nontrivial:
         out['nontrivial'] += 1
+    for st_ in pipe:
+        out['kinds'][st_['kind']] = out['kinds'].get(st_['kind'], 0) + 1
     alt_sp = (len(pipe) + len(srcd['items'])) % 2 == 1
     spec = L.build_iter(pipe, alt_sp)
     base = dict(kind='def', pipe=pipe, srcd=srcd, kmax=kmax, horizon=horizon, pred=small_pred(pred))
@@ -194,35 +184,40 @@ def check_def_case(st, out):
         return
     if len(out['samples']) < 1 and len(pipe) >= 3 and pred['n'] >= 2:
         out['samples'].append(dict(base, obs=obs, spec=repr(spec)))
-    # first(): the first truthy output, None when the pipeline ends without one
-    f = pred['first']
-    if f['det'] and f['demLA'] != INF:
-        r = L.run_terminal(spec.first(), srcd, horizon)
-        out['n'] += 1
-        want = f['v'] if f['found'] else {'k': 'none'}
+    def judge_terminal(P, kind, r):
+        """'' if the observed terminal call r agrees with prediction record P, else (clause, detail)"""
+        t = P[kind]
         if r['exc'] or r['budget']:
-            bad('first', 'first() raised %s' % (r['exc'] or 'beyond horizon'), call='first', obs=r['exc'])
-        elif L.enc(r['v']) != want:
-            bad('first', 'first() returned %s, predicted %s' % (L.enc(r['v']), want), call='first', obs=L.enc(r['v']))
-        elif r['pulled'] > f['demLA']:
-            bad('laziness', 'first() pulled %d source events, DemandLA=%d' % (r['pulled'], f['demLA']),
-                call='first', obs=r['pulled'])
-    a = pred['all']
-    if a['det'] and a['demLA'] != INF:
-        r = L.run_terminal(spec.all(), srcd, horizon)
+            return kind, '%s() raised %s' % (kind, r['exc'] or 'beyond horizon')
+        if kind == 'first':
+            want = t['v'] if t['found'] else {'k': 'none'}
+            got = L.enc(r['v'])
+        else:
+            want = P['xs']
+            got = [L.enc(x) for x in r['v']] if type(r['v']) is list else L.enc(r['v'])
+        if got != want:
+            return kind, '%s() returned %s, predicted %s' % (kind, got, want)
+        if r['pulled'] > t['demLA']:
+            return 'laziness', '%s() pulled %d source events, DemandLA=%d' % (kind, r['pulled'], t['demLA'])
+        return ''
+
+    # first(): the first truthy output, None when the pipeline ends without one;
+    # all(): the whole list, terminating exactly when the pipeline ends
+    for kind, mk in (('first', spec.first), ('all', spec.all)):
+        t = pred[kind]
+        if not (t['det'] and t['demLA'] != INF):
+            continue
+        r = L.run_terminal(mk(), srcd, horizon)
         out['n'] += 1
-        if r['exc'] or r['budget']:
-            bad('all', 'all() raised %s' % (r['exc'] or 'beyond horizon'), call='all', obs=r['exc'])
-        elif type(r['v']) is not list or [L.enc(x) for x in r['v']] != pred['xs']:
-            bad('all', 'all() returned %s, predicted %s' % (L.enc(r['v']), pred['xs']), call='all', obs=L.enc(r['v']))
-        elif r['pulled'] > a['demLA']:
-            bad('laziness', 'all() pulled %d source events, DemandLA=%d' % (r['pulled'], a['demLA']),
-                call='all', obs=r['pulled'])
+        res = judge_terminal(pred, kind, r)
+        if res:
+            robs = dict(exc=r['exc'], budget=r['budget'], pulled=r['pulled'], v=L.enc(r['v']))
+            bad(res[0], res[1], call=kind, obs=robs)
 
 
 def new_out(horizon=0):
     return dict(n=0, cases=0, nontrivial=0, illtyped=0, undetermined=0, bad=[], drift=[], samples=[],
-                horizon=horizon)
+                horizon=horizon, kinds={})
 
 
 def make_def_worker(horizon):
@@ -251,13 +246,13 @@ def make_pull_worker(horizon):
             out['n'] += 1
             case = dict(kind='pull', pipe=pipe, srcd=srcd, kmax=st['kmax'], machine=dict(ev=st['ev'], outs=st['outs'], fin=st['fin']),
                         obs=obs)
-            if obs['exc'] or obs['outs'] != st['outs'] or obs['ended'] != (st['fin'] == 'end'):
-                clause = 'outputs'
-                if explained_by_forgotten_sentinel(st['pred'], obs, st['kmax']):
-                    clause = 'outputs:sentinel-dropped'
-                out['bad'].append(dict(why='%s: machine (checked against the law) handed out %s fin=%s, real code %s ended=%s exc=%s'
-                                       % (clause, st['outs'], st['fin'], obs['outs'], obs['ended'], obs['exc']),
-                                       case=dict(case, clause=clause)))
+            clause, detail, _ = judge_iter(st['pred'], obs, st['kmax'])
+            if clause:
+                out['bad'].append(dict(why='%s: %s' % (clause, detail), case=dict(case, clause=clause)))
+            elif obs['outs'] != st['outs'] or obs['ended'] != (st['fin'] == 'end'):
+                out['bad'].append(dict(why='outputs: machine (checked against the law) handed out %s fin=%s, real code %s ended=%s'
+                                       % (st['outs'], st['fin'], obs['outs'], obs['ended']),
+                                       case=dict(case, clause='outputs')))
             elif obs['ev'] != st['ev']:
                 out['drift'].append(dict(kind='pull', pipe=pipe, srcd=srcd, what='interleaving: machine %s real %s'
                                          % (''.join(st['ev']), ''.join(obs['ev']))))
@@ -269,6 +264,8 @@ def make_pull_worker(horizon):
 
 
 # ---- builder machine --------------------------------------------------------------------------------
+KINDS = ['base', 'map', 'filter', 'slice', 'takewhile', 'dropwhile', 'chunked', 'windowed', 'split', 'unique', 'flatten']
+PULL_ACTIONS = ['StartPull', 'PConsumerPull', 'PPrefill', 'PBuild', 'PStagePull', 'PEmit', 'PEnd', 'FinishPull']
 PROBES = [[1, 2, 0, 3, 1], [3, None, 2, 2]]
 PROBE_TARGET = [5, 6]
 
@@ -326,12 +323,8 @@ def check_build_state(st, out):
                 if want['bad']:
                     continue
                 if g != want['xs']:
-                    derived = j >= 2
-                    dropped = derived and objs[j]['given'] and g == want['alt']
                     bad('spec %d (%s) on probe %s yields %s, its meaning yields %s'
-                        % (j + 1, reprs[j], PROBES[pi], g, want['xs']),
-                        clause='outputs:sentinel-dropped' if dropped else 'behaviour', spec=j + 1,
-                        pipe=[dict(kind='base', b=1 if objs[j]['given'] else 0)] + ([dict(kind='derived')] if derived else []))
+                        % (j + 1, reprs[j], PROBES[pi], g, want['xs']), clause='behaviour', spec=j + 1)
                     break
         else:
             if got['pos'] != p['pos'] or got['kw'] != p['kw']:
@@ -389,7 +382,8 @@ def rand_stage(rng, depth):
         return S('windowed', '', rng.randint(1, 4)), depth + 1
     if k == 'split':
         mode = rng.choice(['none', 'none', 'scalar', 'set'] if depth == 0 or wild else ['none', 'scalar'])
-        sep = None if mode == 'none' else rng.choice([None, 0, 1])
+        # (a scalar separator None *is* the grouping mode, so scalar separators are ints)
+        sep = None if mode == 'none' else rng.choice([0, 1]) if mode == 'scalar' else rng.choice([None, 0, 1])
         return S('split', mode, 0, rng.choice([-1, -1, 1, 2, 3]), 0, sep), depth + 1
     if k == 'unique':
         return S('unique', rng.choice(['T', 'mod2'])), depth
@@ -470,27 +464,27 @@ def validate_trace(check, rows, label, chunk):
 
 # ---- findings ------------------------------------------------------------------------------------------
 def match_finding(f, case):
-    m = f.get('match', {})
-    if m.get('clause') == 'outputs:sentinel-dropped':
-        pipe = case.get('pipe') or []
-        return (case.get('clause') == 'outputs:sentinel-dropped' and len(pipe) >= 2
-                and pipe[0].get('kind') == 'base' and pipe[0].get('b') == 1)
+    """no known finding is open for C17 (the sentinel defect is repaired, commit 54a8dd1): every
+    disagreement with the law is a VIOLATION"""
     return False
 
 
 # ---- main -------------------------------------------------------------------------------------------------
-def corrupted_rows(rows):
-    """two corrupted copies of a good recorded row: one breaks the law, one only the interleaving"""
+def corrupted_rows():
+    """self-test of the trace checker, independent of the implementation: a hand-written correct
+    execution of Iter().map(inc) on [1, 2, 3] (must be accepted), a copy with a wrong output (must be
+    rejected by the law) and a copy with one more source pull in the interleaving (must be rejected
+    by the pull machine only)"""
     import copy
-    good = next(r for r in rows if r['obs']['mech'] and len(r['obs']['outs']) >= 2 and r['pipe'][0]['b'] == 0
-                and r['obs']['ev'].count('p') >= 2)
+    good = dict(pipe=[S('base', 'T', 0, 0, 0, L.STOP), S('map', 'inc')],
+                srcd=dict(kind='fin', items=[V(1), V(2), V(3)]), kmax=4, horizon=24,
+                obs=dict(outs=[V(2), V(3), V(4)], ended=True, pulled=[0, 1, 2, 3, 4], budget=False,
+                         ev=['b', 'p', 'e', 'p', 'e', 'p', 'e', 'x', 'f'], mech=True))
     a = copy.deepcopy(good)
-    a['obs']['outs'][1] = {'k': 'int', 'i': 77}
+    a['obs']['outs'][1] = V(77)
     b = copy.deepcopy(good)
-    ev = b['obs']['ev']
-    i = max(j for j, e in enumerate(ev) if e == 'p')
-    ev.insert(i, 'p')                       # one more pull than really happened, counters untouched
-    return [a, b]
+    b['obs']['ev'].insert(3, 'p')
+    return [good, a, b]
 
 
 def spec_mutants(check):
@@ -498,7 +492,7 @@ def spec_mutants(check):
             ('MC_C17_pull', dict(PullMutant='"takewhile_drain"'), 'pull:takewhile_drain'),
             ('MC_C17_build', dict(BuildMutant='"inplace"'), 'build:inplace'),
             ('MC_C17_build', dict(BuildMutant='"sharekw"'), 'build:sharekw'),
-            ('MC_C17_build', dict(SentinelCarried='FALSE'), 'build:sentinel-not-carried(code as written)')]
+            ('MC_C17_build', dict(BuildMutant='"dropsentinel"'), 'build:dropsentinel (_add_op before 54a8dd1)')]
     base = dict(MaxStages=2, Horizon=16, KMax=6, Wide='FALSE', MaxDerive=3)
 
     def one(r):
@@ -509,6 +503,8 @@ def spec_mutants(check):
         for label, res in ex.map(one, runs):
             if not res['violated']:
                 raise vlib.MachineryError('spec mutant %s: TLC did not report a law violated' % label)
+            if label.startswith('build:dropsentinel') and res['violated'] != 'LawExtends':
+                raise vlib.MachineryError('spec mutant %s violated %s, expected LawExtends' % (label, res['violated']))
             out[label] = res['violated']
     check.extra['spec_mutants_detected'] = out
 
@@ -517,29 +513,42 @@ def main(tier, seed):
     check = vlib.Check(PROP, tier, seed)
     cfgd = TIERS[tier]
     jobs = [Dump('MC_C17_cases', consts(cfgd['cases']), 8, 'cases'),
-            Dump('MC_C17_pull', consts(cfgd['pull']), 6, 'pull'),
-            Dump('MC_C17_build', consts(cfgd['build']), 2, 'build')]
+            Dump('MC_C17_pull', consts(cfgd['pulldump']), 4, 'pull'),
+            Dump('MC_C17_build', consts(cfgd['build']), 2, 'build', coverage=(tier == 'thorough'))]
     if 'cases2' in cfgd:
         jobs.append(Dump('MC_C17_cases', consts(cfgd['cases2']), 6, 'cases-wide'))
     rows, dropped = record_rows(cfgd['rows'], seed)
-    bad_rows = corrupted_rows(rows)
+    bad_rows = corrupted_rows()
+    cover = tier == 'thorough'
     try:
-        with ThreadPoolExecutor(max_workers=8) as ex:
+        with ThreadPoolExecutor(max_workers=10) as ex:
             futs = [ex.submit(j.run) for j in jobs]
             laws = ex.submit(vlib.run_tlc, 'MC_C17', cfg='MC_C17', constants=consts(cfgd['laws']), workers=4,
-                             timeout=3000, coverage=(tier == 'thorough'))
+                             timeout=3000, coverage=cover)
+            plaws = [(k, ex.submit(vlib.run_tlc, 'MC_C17', cfg='MC_C17_pull_safety' if k == 'pull3' else 'MC_C17_pull',
+                                   constants=consts(cfgd[k]), workers=8 if k == 'pull3' else 6,
+                                   timeout=6000, heap='8g', coverage=cover and k == 'pull2'))
+                     for k in ('pull', 'pull2', 'pull3') if k in cfgd]
             tr = ex.submit(validate_trace, check, rows, 'random-pipelines', cfgd['chunk'])
             trbad = ex.submit(validate_trace, vlib.Check(PROP, tier, seed), bad_rows, 'corrupted', 10)
             for f in futs:
                 f.result()
             res_laws = vlib.tlc_must_pass(laws.result(), 'MC_C17 (laws of the definition)')
+            for k, f in plaws:
+                r_ = vlib.tlc_must_pass(f.result(), 'MC_C17_pull (pull machine satisfies the laws) %s' % k)
+                check.add_tlc(r_, 'MC_C17_pull laws %s' % cfgd[k])
+                if r_['coverage']:
+                    missing = [a for a in PULL_ACTIONS if not r_['coverage'].get(a)]
+                    if missing:
+                        raise vlib.MachineryError('pull machine actions never taken: %s' % missing)
             rejects, skipped = tr.result()
             rej_bad, _ = trbad.result()
         check.add_tlc(res_laws, 'MC_C17 laws %s' % cfgd['laws'])
         # -- corrupted rows must be rejected, with the right kind of clause
-        clauses = sorted(r[1]['clause'] for r in rej_bad)
-        if len(rej_bad) != 2 or not any(c.startswith('drift') for c in clauses) or not any(not c.startswith('drift') for c in clauses):
-            raise vlib.MachineryError('corrupted recorded rows were not rejected as expected: %s' % clauses)
+        clauses = sorted((r[1]['reject'], r[1]['clause']) for r in rej_bad)
+        if [c[0] for c in clauses] != [2, 3] or clauses[0][1] != 'outputs' or not clauses[1][1].startswith('drift'):
+            raise vlib.MachineryError('trace checker self-test: expected row 1 accepted, row 2 rejected by the law, '
+                                      'row 3 rejected by the machine; got %s' % clauses)
         check.extra['corrupted_rows_rejected'] = clauses
         # -- recorded executions
         drift = []
@@ -565,8 +574,10 @@ def main(tier, seed):
         for j in jobs:
             results = process_dump(j, workers[j.label], keep='/\\ phase = 2' if j.label == 'pull' else None)
             check.add_tlc(j.res, '%s %s' % (j.cfg, j.constants))
-            agg = dict(cases=0, runs=0, nontrivial=0, illtyped=0, undetermined=0, violating=0, drift=0)
+            agg = dict(cases=0, runs=0, nontrivial=0, illtyped=0, undetermined=0, violating=0, drift=0, kinds={})
             for r in results:
+                for k_, n_ in r['kinds'].items():
+                    agg['kinds'][k_] = agg['kinds'].get(k_, 0) + n_
                 agg['cases'] += r['cases']
                 agg['runs'] += r['n']
                 agg['nontrivial'] += r['nontrivial']
@@ -585,6 +596,12 @@ def main(tier, seed):
             stats[j.label] = agg
             if agg['cases'] == 0:
                 raise vlib.MachineryError('no cases in the %s dump' % j.label)
+            if j.label == 'cases':
+                missing = [k_ for k_ in KINDS if not agg['kinds'].get(k_)]
+                if missing:
+                    raise vlib.MachineryError('stage kinds never exercised in a well-typed case: %s' % missing)
+            if j.label == 'build' and j.res['coverage'] and not j.res['coverage'].get('DeriveFrom'):
+                raise vlib.MachineryError('builder action Derive never taken')
         check.extra['replay'] = stats
         ndrift = sum(s['drift'] for s in stats.values()) + sum(1 for d in drift if d.get('kind') == 'trace')
         check.extra['drift'] = dict(count=ndrift, examples=drift[:5])
@@ -625,9 +642,12 @@ def replay(path):
         obs = L.run_iter(spec, case['srcd'], case['kmax'], case.get('horizon', 24), want_ev=True)
         print('observed:', obs)
         if kind == 'def':
-            clause, detail, _ = judge_iter(case['pred'], obs, case['kmax'])
-            print('verdict now:', clause or 'agrees', detail)
-            return 1 if clause else 0
+            out = new_out(case['horizon'])
+            check_def_case(dict(pipe=case['pipe'], srcd=case['srcd'], kmax=case['kmax'], pred=dict(case['pred'], bad=False)), out)
+            for b_ in out['bad']:
+                print('still disagrees:', b_['why'])
+            print('verdict now:', 'disagrees' if out['bad'] else 'agrees with the law')
+            return 1 if out['bad'] else 0
         if kind == 'pull':
             same = obs['outs'] == case['machine']['outs']
             print('machine:', case['machine'])
